@@ -22,7 +22,9 @@ CONSTANTS MaxExch        \* exchanges per run (the first one is the negotiation 
 Points == {"write", "read-first", "read-mid", "after-reply"}
 \* a write fails at the client's socket (eof: the peer has gone, broken pipe; closed; reset; short write); a read fails because of what
 \* the peer does (eof: it closes; reset) - before replying, after a part of the response, or right after the complete response
-KindsAt(p) == IF p = "write" THEN {"eof", "closed", "reset", "short"} ELSE {"eof", "reset"}
+\* ("junk" before the reply: the server sends a well-framed message the client cannot decode - an unsolicited server-to-client request
+\* with vendor content - and then its reply; the connection is of no use any more, whatever the server sends on it afterwards)
+KindsAt(p) == IF p = "write" THEN {"eof", "closed", "reset", "short"} ELSE IF p = "read-first" THEN {"eof", "reset", "junk"} ELSE {"eof", "reset"}
 NoPlan == [pt |-> "none", kind |-> "none", persist |-> FALSE, exch |-> 0]
 Plans == {NoPlan} \cup UNION {{[pt |-> p, kind |-> k, persist |-> b, exch |-> e] : k \in KindsAt(p), b \in BOOLEAN, e \in 1..2} : p \in Points}
 
